@@ -15,18 +15,26 @@ from p_conv import synth_stable
 class Case:
     """one generated (graph, GAF) pair on disk, indexed by the real tool"""
 
-    def __init__(self, rng, tmp, stable, bgzf):
+    def __init__(self, rng, tmp, stable, bgzf, big=False, many=False):
         from gaftools.cli import view
         self.tmp = tmp
-        self.g = gen.rgfa(rng, max_ref_segs=7)
+        self.big = big
+        # big: one reference contig of 55-80 segments, every one of them aligned (more nodes under one region than any
+        # plausible internal limit of fifty)
+        self.g = gen.rgfa(rng, max_ref_segs=7) if not big else gen.rgfa(rng, max_ref=1, min_ref_segs=55, max_ref_segs=80, max_hap=1)
         self.gtext = self.g.text(shuffle_rng=rng if rng.random() < 0.6 else None)
         self.tok = tokenize_gfa(self.gtext)
         adj = self.g.adjacency()
         nrec = rng.choice([1, 2, 3, 5, 8, 14]) if rng.random() < 0.93 else rng.randint(80, 200)
+        if many:
+            nrec = rng.randint(1001, 1100)      # more records than any plausible internal batch of a thousand
         lines = []
         for k in range(nrec):
             w = gen.walk(rng, self.g, adj)
             lines.append(gen.walk_record(rng, self.g, w, "q%d" % k))
+        if big:
+            for sg in self.g.segs:
+                lines.append(gen.walk_record(rng, self.g, [(sg["id"], rng.choice("+-"))], "q%d" % len(lines)))
         self.stable = stable
         self.gfa = os.path.join(tmp, "v.gfa")
         gen.write_text(self.gfa, self.gtext)
@@ -128,7 +136,7 @@ def index_to_ordinals(case, ind):
 def c03(ck, tmp, n):
     rng = ck.rng
     for it in range(n):
-        case = Case(rng, tmp, stable=rng.random() < 0.5, bgzf=rng.random() < 0.5)
+        case = Case(rng, tmp, stable=rng.random() < 0.5, bgzf=rng.random() < 0.5, big=it == 4, many=it == 6)
         ind, err = case.index()
         impl, problems = (None, [err]) if ind is None else index_to_ordinals(case, ind)
         r = ck.driver([dict(case.base(), op="view.index", impl_index=impl)])[0]
@@ -168,7 +176,9 @@ def lines_to_ordinals(case, out):
 def c04_c05(ck, prop, tmp, n):
     rng = ck.rng
     for it in range(n):
-        case = Case(rng, tmp, stable=rng.random() < 0.4, bgzf=rng.random() < 0.4)
+        case = Case(rng, tmp, stable=rng.random() < 0.4, bgzf=rng.random() < 0.4, big=it in (3, n // 2), many=it == 5)
+        if case.big:
+            ck.count("big-contig")
         ind, err = case.index()
         if ind is None:
             ck.violation("index failed on a valid input: %s" % err, case.replay())
@@ -192,7 +202,10 @@ def c04_c05(ck, prop, tmp, n):
                     lo = min(x["SO"] for x in segs_c)
                     hi = max(x["SO"] + len(x["seq"]) for x in segs_c)
                     mode = rng.random()
-                    if mode < 0.3:   # inside one node
+                    if case.big and not regs:      # the whole contig, or most of it: more than fifty nodes under one region
+                        a = lo + rng.choice([0, 0, 1, 7])
+                        b = hi - 1 - rng.choice([0, 0, 3])
+                    elif mode < 0.3:   # inside one node
                         a = rng.randrange(s["SO"], s["SO"] + len(s["seq"]))
                         b = rng.randrange(a, s["SO"] + len(s["seq"]))
                     elif mode < 0.5:  # on node boundaries
